@@ -157,3 +157,254 @@ theorem splitQ_last (q : St) (i : Nat) (l : List Cls) (hl : l ≠ []) :
       exact ⟨(if brkD (δ q r) (look (x :: xs) none) then [i + 1] else []) ++ ini, by simp⟩
 
 end RosedVerif
+
+namespace RosedVerif
+open Cls
+
+/-- the top position `i + |l|` is an end iff the last decision says so -/
+theorem top_mem_splitQ (q : St) (i : Nat) (after : Option Cls) (l : List Cls) (hl : l ≠ []) :
+    (i + l.length) ∈ splitQ q i after l ↔ brkD (run q l) after = true := by
+  induction l generalizing q i with
+  | nil => exact absurd rfl hl
+  | cons r rest ih =>
+    cases rest with
+    | nil =>
+      rw [splitQ_cons]
+      simp only [look_nil, splitQ, List.append_nil, List.length_cons, List.length_nil, run, List.foldl]
+      by_cases h : brkD (δ q r) after = true <;> simp [h]
+    | cons x xs =>
+      rw [splitQ_cons, run_cons]
+      have e : i + (r :: x :: xs).length = (i + 1) + (x :: xs).length := by
+        simp only [List.length_cons]; omega
+      rw [e, ← ih (δ q r) (i + 1) (by simp)]
+      constructor
+      · intro h
+        rcases List.mem_append.mp h with h | h
+        · split at h
+          · simp only [List.mem_singleton, List.length_cons] at h; omega
+          · simp at h
+        · exact h
+      · intro h; exact List.mem_append.mpr (Or.inr h)
+
+/-- decomposition of the segmentation of `p ++ m ++ s` when both junctions around `m` are boundaries -/
+theorem split_decomp (p m s : List Cls) (hm : m ≠ [])
+    (hp : p = [] ∨ brkD (run St.init p) m.head? = true)
+    (hs : brkD (run St.init (p ++ m)) (look s none) = true) :
+    split (p ++ m ++ s) =
+      split p ++ (split m).map (· + p.length) ++
+        splitQ (run St.init (p ++ m)) (p.length + m.length) none s := by
+  rw [split_eq_splitQ, split_eq_splitQ, split_eq_splitQ, List.append_assoc, splitQ_append,
+    splitQ_append]
+  simp only [Nat.zero_add]
+  have hlook : look (m ++ s) none = m.head? := by
+    cases m with
+    | nil => exact absurd rfl hm
+    | cons x xs => rfl
+  -- the p part
+  have e1 : splitQ St.init 0 (look (m ++ s) none) p = splitQ St.init 0 none p := by
+    rcases hp with hp | hp
+    · subst hp; rfl
+    · by_cases hpe : p = []
+      · subst hpe; rfl
+      · apply splitQ_after _ _ _ _ _ _ hpe
+        rw [hlook, hp]; rfl
+  -- the m part
+  have e2 : splitQ (run St.init p) p.length (look s none) m = (splitQ St.init 0 none m).map (· + p.length) := by
+    have a1 : splitQ (run St.init p) p.length (look s none) m = splitQ (run St.init p) p.length none m := by
+      apply splitQ_after _ _ _ _ _ _ hm
+      rw [← run_append, hs]; rfl
+    have a2 : splitQ (run St.init p) p.length none m = splitQ St.init p.length none m := by
+      rcases hp with hp | hp
+      · subst hp; rfl
+      · exact splitQ_restart _ _ _ _ (good_run _ _ good_init) hp
+    rw [a1, a2]
+    have := splitQ_shift St.init 0 p.length none m
+    simpa using this
+  rw [e1, e2, run_append, List.append_assoc]
+
+end RosedVerif
+
+namespace RosedVerif
+open Cls
+
+theorem sorted_getD_inj (e : List Nat) (hs : e.Pairwise (· < ·)) (i j : Nat) (hi : i < e.length)
+    (hj : j < e.length) (h : e.getD i 0 = e.getD j 0) : i = j := by
+  rw [List.pairwise_iff_getElem] at hs
+  simp only [List.getD_eq_getElem?_getD, List.getElem?_eq_getElem hi, List.getElem?_eq_getElem hj,
+    Option.getD_some] at h
+  rcases Nat.lt_trichotomy i j with h' | h' | h'
+  · have := hs i j hi hj h'; omega
+  · exact h'
+  · have := hs j i hj hi h'; omega
+
+theorem sorted_getD_lt (e : List Nat) (hs : e.Pairwise (· < ·)) (i j : Nat) (hij : i < j)
+    (hj : j < e.length) : e.getD i 0 < e.getD j 0 := by
+  rw [List.pairwise_iff_getElem] at hs
+  have hi : i < e.length := by omega
+  simp only [List.getD_eq_getElem?_getD, List.getElem?_eq_getElem hi, List.getElem?_eq_getElem hj,
+    Option.getD_some]
+  exact hs i j hi hj hij
+
+theorem getD_mem (e : List Nat) (i : Nat) (hi : i < e.length) : e.getD i 0 ∈ e := by
+  simp only [List.getD_eq_getElem?_getD, List.getElem?_eq_getElem hi, Option.getD_some]
+  exact List.getElem_mem hi
+
+theorem split_sorted (cs : List Cls) : (split cs).Pairwise (· < ·) := by
+  rw [split_eq_splitQ]; exact splitQ_sorted _ _ _ _
+
+theorem split_bounds (cs : List Cls) : ∀ j ∈ split cs, 0 < j ∧ j ≤ cs.length := by
+  rw [split_eq_splitQ]
+  intro j hj
+  have := splitQ_bounds St.init 0 none cs j hj
+  omega
+
+theorem split_last (cs : List Cls) (h : cs ≠ []) : ∃ ini, split cs = ini ++ [cs.length] := by
+  rw [split_eq_splitQ]
+  obtain ⟨ini, hi⟩ := splitQ_last St.init 0 cs h
+  exact ⟨ini, by simpa using hi⟩
+
+theorem split_nil : split [] = [] := rfl
+
+/-- **context-freeness at boundaries**: the slice of `cs` between the `st`-th and the `en`-th
+cluster boundary segments on its own exactly as it does inside `cs` -/
+theorem split_slice (cs : List Cls) (st en : Nat) (h1 : st < en) (h2 : en ≤ (split cs).length) :
+    split ((cs.drop (if st > 0 then (split cs).getD (st - 1) 0 else 0)).take
+        ((split cs).getD (en - 1) 0 - (if st > 0 then (split cs).getD (st - 1) 0 else 0))) =
+      (((split cs).drop st).take (en - st)).map
+        (· - (if st > 0 then (split cs).getD (st - 1) 0 else 0)) := by
+  generalize he : split cs = e at *
+  have hsort : e.Pairwise (· < ·) := he ▸ split_sorted cs
+  have hbnd : ∀ j ∈ e, 0 < j ∧ j ≤ cs.length := he ▸ split_bounds cs
+  generalize ha : (if st > 0 then e.getD (st - 1) 0 else 0) = a
+  generalize hb : e.getD (en - 1) 0 = b
+  have hbm : b ∈ e := hb ▸ getD_mem e (en - 1) (by omega)
+  have hab : a < b := by
+    by_cases h0 : st > 0
+    · simp only [h0, if_true] at ha
+      rw [← ha, ← hb]
+      exact sorted_getD_lt e hsort (st - 1) (en - 1) (by omega) (by omega)
+    · simp only [h0, if_false] at ha
+      rw [← ha]; exact (hbnd b hbm).1
+  have hbn : b ≤ cs.length := (hbnd b hbm).2
+  -- the three parts
+  let p := cs.take a
+  let m := (cs.drop a).take (b - a)
+  let s := cs.drop b
+  have hcs : cs = p ++ m ++ s := by
+    have : cs.drop a = m ++ s := by
+      show cs.drop a = (cs.drop a).take (b - a) ++ cs.drop b
+      have : cs.drop b = (cs.drop a).drop (b - a) := by
+        rw [List.drop_drop]; congr 1; omega
+      rw [this, List.take_append_drop]
+    show cs = cs.take a ++ m ++ s
+    rw [List.append_assoc, ← this, List.take_append_drop]
+  have hpl : p.length = a := by simp [p]; omega
+  have hml : m.length = b - a := by simp [m]; omega
+  have hm : m ≠ [] := by
+    intro h; rw [h] at hml; simp at hml; omega
+  -- decomposition of e along p, m, s
+  have hdec : e = splitQ St.init 0 (look (m ++ s) none) p ++
+      (splitQ (run St.init p) a (look s none) m ++ splitQ (run St.init (p ++ m)) b none s) := by
+    rw [← he, hcs, split_eq_splitQ, List.append_assoc, splitQ_append, splitQ_append, run_append]
+    simp only [Nat.zero_add, hpl, hml]
+    have : a + (b - a) = b := by omega
+    rw [this]
+  have bP : ∀ j ∈ splitQ St.init 0 (look (m ++ s) none) p, j ≤ a := by
+    intro j hj; have := splitQ_bounds _ _ _ _ j hj; omega
+  have bM : ∀ j ∈ splitQ (run St.init p) a (look s none) m, a < j ∧ j ≤ b := by
+    intro j hj; have := splitQ_bounds _ _ _ _ j hj; omega
+  have bS : ∀ j ∈ splitQ (run St.init (p ++ m)) b none s, b < j := by
+    intro j hj; have := splitQ_bounds _ _ _ _ j hj; omega
+  have hlook : look (m ++ s) none = m.head? := by
+    cases hmm : m with
+    | nil => exact absurd hmm hm
+    | cons x xs => rfl
+  -- junction before m
+  have hp : p = [] ∨ brkD (run St.init p) m.head? = true := by
+    by_cases h0 : st > 0
+    · right
+      simp only [h0, if_true] at ha
+      have ham : a ∈ e := ha ▸ getD_mem e (st - 1) (by omega)
+      have ha0 : 0 < a := (hbnd a ham).1
+      have hpe : p ≠ [] := by intro h; rw [h] at hpl; simp at hpl; omega
+      rw [hdec] at ham
+      rcases List.mem_append.mp ham with h | h
+      · have : 0 + p.length ∈ splitQ St.init 0 (look (m ++ s) none) p := by simpa [hpl] using h
+        rw [← hlook]
+        exact (top_mem_splitQ _ _ _ _ hpe).mp this
+      · rcases List.mem_append.mp h with h | h
+        · have := (bM a h).1; omega
+        · have := bS a h; omega
+    · left
+      simp only [h0, if_false] at ha
+      have : p.length = 0 := by omega
+      exact List.eq_nil_of_length_eq_zero this
+  -- junction after m
+  have hs' : brkD (run St.init (p ++ m)) (look s none) = true := by
+    have hbm' := hbm
+    rw [hdec] at hbm'
+    rcases List.mem_append.mp hbm' with h | h
+    · have := bP b h; omega
+    · rcases List.mem_append.mp h with h | h
+      · have : a + m.length ∈ splitQ (run St.init p) a (look s none) m := by
+          have : a + m.length = b := by omega
+          rw [this]; exact h
+        rw [run_append]
+        exact (top_mem_splitQ _ _ _ _ hm).mp this
+      · have := bS b h; omega
+  have hD := split_decomp p m s hm hp hs'
+  rw [← hcs, he] at hD
+  -- sizes
+  have hXlen : (split p).length = st := by
+    by_cases h0 : st > 0
+    · simp only [h0, if_true] at ha
+      have ham : a ∈ e := ha ▸ getD_mem e (st - 1) (by omega)
+      have ha0 : 0 < a := (hbnd a ham).1
+      have hpe : p ≠ [] := by intro h; rw [h] at hpl; simp at hpl; omega
+      obtain ⟨ini, hini⟩ := split_last p hpe
+      have hidx : e.getD ((split p).length - 1) 0 = a := by
+        rw [hD, hini]
+        simp [List.getD_eq_getElem?_getD, hpl]
+      have hlt : (split p).length - 1 < e.length := by
+        rw [hD, hini]; simp
+      have := sorted_getD_inj e hsort _ _ hlt (by omega) (hidx.trans ha.symm)
+      have hpos : 0 < (split p).length := by rw [hini]; simp
+      omega
+    · have : p = [] := by
+        rcases hp with h | h
+        · exact h
+        · simp only [h0, if_false] at ha
+          exact List.eq_nil_of_length_eq_zero (by omega)
+      rw [this, split_nil]; simp; omega
+  have hYlast : ∃ ini, (split m).map (· + p.length) = ini ++ [b] := by
+    obtain ⟨ini, hini⟩ := split_last m hm
+    refine ⟨ini.map (· + p.length), ?_⟩
+    rw [hini, List.map_append]
+    simp only [List.map_cons, List.map_nil, hml, hpl]
+    congr 2; omega
+  have hYlen : (split p).length + (split m).length = en := by
+    obtain ⟨ini, hini⟩ := hYlast
+    have hlen : ((split m).map (· + p.length)).length = ini.length + 1 := by rw [hini]; simp
+    have hidx : e.getD ((split p).length + (split m).length - 1) 0 = b := by
+      have hl : (split m).length = ini.length + 1 := by simpa using hlen
+      rw [hD, hini, hl]
+      simp [List.getD_eq_getElem?_getD, List.getElem?_append_right, List.getElem?_append_left]
+    have hlt : (split p).length + (split m).length - 1 < e.length := by
+      rw [hD]; simp; have : 0 < (split m).length := by
+        have := hlen; simp at this; omega
+      omega
+    have := sorted_getD_inj e hsort _ _ hlt (by omega) (hidx.trans hb.symm)
+    have : 0 < (split m).length := by have := hlen; simp at this; omega
+    omega
+  -- conclusion
+  show split m = ((e.drop st).take (en - st)).map (· - a)
+  have hdrop : (e.drop st).take (en - st) = (split m).map (· + p.length) := by
+    rw [hD, ← hXlen]
+    have : en - (split p).length = ((split m).map (· + p.length)).length := by simp; omega
+    rw [List.append_assoc, List.drop_left, this, List.take_left]
+  rw [hdrop, List.map_map]
+  have : ((fun x => x - a) ∘ fun x => x + p.length) = id := by
+    funext x; simp [hpl]
+  rw [this, List.map_id]
+
+end RosedVerif
